@@ -373,6 +373,8 @@ def do_part(test, ph, part):
         _stdin_readline()
     if part.get("stderr_text"):
         sys.stderr.write(part["stderr_text"])
+    if part.get("stdout_text"):
+        sys.stdout.write(part["stdout_text"])
     if part.get("settrace"):
         # a test that installs a trace function of its own and removes it again
         def _tracer(frame, event, arg):
